@@ -44,6 +44,7 @@ type Sim struct {
 	Stick    int // percent: keep running the goroutine family picked last
 	last     string
 
+	looping  bool
 	Aborted  string
 	Panics   []string
 	Stats    map[string]int
@@ -318,6 +319,16 @@ func (s *Sim) Drain() {
 	s.mu.Unlock()
 }
 
+// Looping reports whether the scheduler loop is running (then the caller is
+// not the root goroutine).
+//
+//go:norace
+func (s *Sim) Looping() bool {
+	s.mu.Lock()
+	defer s.mu.Unlock()
+	return s.looping
+}
+
 // Draining reports cleanup mode.
 //
 //go:norace
@@ -332,6 +343,14 @@ func (s *Sim) Draining() bool {
 //
 //go:norace
 func (s *Sim) Loop() {
+	s.mu.Lock()
+	s.looping = true
+	s.mu.Unlock()
+	defer func() {
+		s.mu.Lock()
+		s.looping = false
+		s.mu.Unlock()
+	}()
 	var elig []*Entry
 	for {
 		raceOff()
